@@ -190,7 +190,8 @@ def _c12_dead(v):
     import re
     return ver <= (3, 7) and mech.get('in_constant_false_block') is True and bool(re.match(
         r"('(yield|return|continue|break|await|yield from)' (outside function|not properly in loop|outside loop|outside async function)"
-        r"|from __future__ imports must occur at the beginning of the file)$", msg))
+        r"|from __future__ imports must occur at the beginning of the file|can't use starred expression here"
+        r"|'continue' not supported inside 'finally' clause)$", msg))
 
 
 @classifier('c12_raw_fstring_backslash_brace')
@@ -299,7 +300,7 @@ def _c12_lambda_global(v):
     d, msg, mech, ver = _c12(v)
     import re
     return bool(re.match(r"name '[^']+' is (used prior to|assigned to before) global declaration$", msg)) \
-        and mech.get('earlier_occurrences_all_in_nested_lambda') is True
+        and mech.get('earlier_occurrences_none_plain') is True and mech.get('earlier_occurrences_all_in_imports') is not True
 
 
 @classifier('c12_genexp_as_class_argument_36')
@@ -324,4 +325,28 @@ def _c12_typeparam_global(v):
     d, msg, mech, ver = _c12(v)
     import re
     return ver >= (3, 12) and bool(re.match(r"name '[^']+' is (used prior to|assigned to before) global declaration$", msg)) \
-        and mech.get('earlier_occurrences_all_in_type_params') is True
+        and mech.get('earlier_occurrence_kinds') == ['type_param']
+
+
+@classifier('c12_del_debug_le_38')
+def _c12_del_debug(v):
+    """F-C12-16: `del __debug__` is accepted by CPython <= 3.8; parso reports 'cannot assign to __debug__'"""
+    d, msg, mech, ver = _c12(v)
+    return ver <= (3, 8) and msg == 'cannot assign to __debug__' and 'del_stmt' in (d.get('ancestors') or []) and d.get('leaf_value') == '__debug__'
+
+
+@classifier('c12_annotated_global_at_module_level_ge_38')
+def _c12_ann_global(v):
+    """F-C12-17: at module level `global x; x: int` is accepted by CPython >= 3.8 (a module-level global declaration is a no-op)"""
+    d, msg, mech, ver = _c12(v)
+    import re
+    return ver >= (3, 8) and bool(re.match(r"annotated name '[^']+' can't be global$", msg)) and mech.get('innermost_scope') == 'module'
+
+
+@classifier('c12_parenthesised_starred_call_argument_le_38')
+def _c12_paren_star(v):
+    """F-C12-18: `f((*a), b)`: CPython <= 3.8 unwraps the parentheses and treats it as f(*a, b)"""
+    d, msg, mech, ver = _c12(v)
+    anc = d.get('ancestors') or []
+    return ver <= (3, 8) and msg == "can't use starred expression here" and d.get('leaf_value') == '(' and len(anc) > 2 \
+        and anc[1] == 'atom' and anc[2] in ('arglist', 'trailer', 'argument')
